@@ -104,15 +104,36 @@ def showErr (r : ExecRes) (adv : Adv) (valTok : String) : String :=
   if r.success then "none"
   else if adv.val == .raise && r.log.contains (.validate false) && emptyMsg valTok then "empty" else "text"
 
+/-- "<act>" or "<act>:<us>" -/
+def parseActTick (t : String) : WorkAct × Nat :=
+  match t.splitOn ":" with
+  | [a] => (parseAct a, 0)
+  | [a, d] => (parseAct a, natD d)
+  | _ => (.none, 0)
+
+/-- the part of a token before the first `@` (the callback's answer; what follows says what it does first) -/
+def tokHead (t : String) : String := (t.splitOn "@").headD ""
+
+/-- `<4 outcomes>[@<i><act>[:<us>]]*` — what the i-th checkpoint callback does before it answers -/
+def parseCpActs (cps : String) : List (Nat × WorkAct × Nat) :=
+  ((cps.splitOn "@").drop 1).map fun e => (natD (e.take 1).toString, parseActTick (e.drop 1).toString)
+
 def parseAdv (cps work val : String) : Adv × Nat :=
-  let cpl := cps.toList.map parseCp
+  let cpl := (tokHead cps).toList.map parseCp
+  let acts := parseCpActs cps
+  let find := fun (i : Nat) => (acts.find? (fun e => e.1 == i)).map (·.2)
   let (act, ok, tick) := match work.splitOn ":" with
     | [a, k] => (parseAct a, k, 0)
     | [a, k, d] => (parseAct a, k, natD d)
     | _ => (WorkAct.none, "ok", 0)
+  let va := match (val.splitOn "@").drop 1 with
+    | [t] => parseActTick t
+    | _ => (WorkAct.none, 0)
   -- "ok" or "ok.<value kind>"; "ok.N" = the work function returns exactly None
   ({ cp := fun i => cpl.getD i .base, tick := tick, act := act, workOk := ok.startsWith "ok",
-     resultNone := ok == "ok.N", val := parseVal val }, tick)
+     resultNone := ok == "ok.N", val := parseVal (tokHead val),
+     cpAct := fun i => ((find i).map (·.1)).getD .none, cpTick := fun i => ((find i).map (·.2)).getD 0,
+     valAct := va.1, valTick := va.2 }, tick)
 
 def showExec (r : ExecRes) (adv : Adv) (valTok : String) (op : Nat) (reqL : List Nat) : String :=
   let own := match r.atWork with
@@ -124,9 +145,13 @@ def showExec (r : ExecRes) (adv : Adv) (valTok : String) (op : Nat) (reqL : List
   s!"{showBool r.success} {showPhase r.phase} err:{showErr r adv valTok} own:{own} {showList (r.log.filterMap showLogEv)}"
 
 def killedTag (r : ExecRes) (adv : Adv) (op : Nat) : List String :=
-  match r.atWork with
-  | some w => if ((applyAct { w with now := w.now + adv.tick } adv.act).ctx? op).isNone then ["x:killed-in-work"] else []
-  | none => []
+  (match r.atWork with
+   | some w =>
+     (if ((applyAct { w with now := w.now + adv.tick } adv.act).ctx? op).isNone then ["x:killed-in-work"] else []) ++
+     (if (w.ctx? op).isNone then ["x:work-while-unlisted"] else [])
+   | none => []) ++
+  (if [0, 1, 2, 3].any (fun i => adv.cpAct i != .none) then ["x:cp-act"] else []) ++
+  (if adv.valAct != .none && r.log.any (fun e => e == .validate true || e == .validate false) then ["x:val-act"] else [])
 
 def withDump (s : Sys) (res : String) (tags : List String := []) : Sys × String :=
   (s, s!"{res} | {dump s}" ++ (if tags.isEmpty then "" else " ## " ++ joinSp tags))
@@ -194,7 +219,7 @@ def step (s : Sys) (toks : List String) : Sys × String :=
     let reqL := parseReq req
     let op := natD o
     let r := exec s op (intD p) reqL adv
-    withDump r.sys (showExec r adv val op reqL) (execTags r ++ killedTag r adv op)
+    withDump r.sys (showExec r adv (tokHead val) op reqL) (execTags r ++ killedTag r adv op)
   | ["cell", o, p, req, cps, work, val, post] =>
     let (adv, _) := parseAdv cps work val
     let reqL := parseReq req
@@ -203,7 +228,7 @@ def step (s : Sys) (toks : List String) : Sys × String :=
     let blk := if c.blockedByCoordination then "coordination" else "none"
     withDump c.sys
       (s!"cell:{showBool c.success} {blk} out:{showBool c.hasOutput} att:{showBool c.coordAttached} " ++
-       s!"trk:{showBool c.tracked} {showExec c.coord adv val op reqL}")
+       s!"trk:{showBool c.tracked} {showExec c.coord adv (tokHead val) op reqL}")
       (execTags c.coord ++ killedTag c.coord adv op ++
         [if c.success then "cell:ok" else if c.blockedByCoordination then "cell:blocked" else "cell:post-raise"])
   | _ => (s, "bad-op")
